@@ -26,6 +26,43 @@ reg(
     "DESIGN.md section 4, C11",
 )
 
+reg(
+    "C09",
+    "model_checking",
+    "(a) States (engine in {XL, KSA}, k in 3..9, buffer phase, resumed?) are explored exhaustively: the real XL_BOMD / "
+    "KSA_XL_BOMD objects run through the real run loop, save_checkpoint and run_from_checkpoint with a tagged one-hot "
+    "stub electronic structure, so the auxiliary density handed to the electronic structure at every step over three "
+    "wraps of the circular buffer, fresh and resumed at every phase, is read off as exact coefficients and compared "
+    "with the published dissipative Verlet recurrence (independent table, itself validated by sum c_j = 0 and "
+    "sum j c_j = 0). (b) spectral radius of the companion matrix of the coefficients identified on the implementation "
+    "over a 2001-point grid of the admissible response range. (c) E_XL(D=P*) = E_SCF, (d) stationary system keeps P "
+    "(dt = 0, all k, killed and resumed at buffer phases), (e) dt^2 scaling of shadow-energy fluctuation and "
+    "convergence to BOMD, all on the real driver.",
+    "Trusted: numpy eigvals; linearity of the propagation (checked by superposition on the real _propagate_P). "
+    "kappa' in (0, kappa_published] accepted. (e) decided on a 6.4 fs horizon.",
+    "explicit-state exploration of the (k, buffer phase, restart) machine on the real integrator with tagged inputs, replayed against a reference recurrence; plus finite lattices on the real driver",
+    "DESIGN.md section 4, C09",
+)
+
+reg(
+    "C10",
+    "fault_enumeration",
+    "Breadth-first search over crash sequences (depth <= 3) where a state is the on-disk image left by a crash: from "
+    "the empty directory every prefix of the physical write journal of the uninterrupted run (LD_PRELOAD shim that "
+    "records every libc-level file mutation with payload = SIGKILL at every possible instant), every 4096-byte page "
+    "split of a multi-page last write (torn write), and a soft crash (exception, finally-block runs) before/after the "
+    "n-th call of every instrumented program point; from crash images, resumed runs crashed again hard (os._exit) or "
+    "soft. In EVERY state the real recovery (run_from_checkpoint, or rerun when no checkpoint exists) is executed and "
+    "every HDF5 dataset, step log and XYZ frame sequence compared with the uninterrupted run; checkpoints must load "
+    "and carry the documented keys.",
+    "Trusted: the journal shim sees all file mutations (validated every run: replaying the full journal reproduces "
+    "the run directory byte for byte); process death only (page cache survives), no power-loss reordering. Hard kills "
+    "inside resumed runs are at program points, not every journal prefix. Known finding: kills inside an HDF5 library "
+    "write leave the .h5 inconsistent.",
+    "exhaustive crash-point enumeration over a recorded write journal + program-point fault injection, BFS over crash sequences with byte-identical state merging, recovery executed on the real code in every state",
+    "DESIGN.md section 4, C10",
+)
+
 ALL = [f"C{i:02d}" for i in range(1, 21)]
 
 
